@@ -201,7 +201,7 @@ UNIT = dict(
                'a protected or not yet retired node is not freed',
                'iterator(list, find_info&&) constructor: modelled member-wise; the defaulted iterator copy/move special members have no text: the harness models them member-wise and the engine checks on every run that they are still `= default` (XV_DEFAULTED_*), otherwise the user-provided body is lowered and verified against the member-wise contract (run iter_special)',
                'INT rely: other threads perform only legal Harris-Michael steps (insert between an unmarked node and its successor in key order, mark, unlink a marked node and retire it once, free only retired unprotected nodes); this is what the guarantee side (hms.*.commit: every successful CAS of an operation is such a legal step) establishes for every operation of this unit',
-               'memory model: sequentially consistent atomics (model/xv.h); the acquire/release annotations (1)-(13) of the header are not examined by this unit',
+               'memory model: sequentially consistent atomics (model/xv.h); of the acquire/release annotations (1)-(13) of the header only the minimum orders at the sites where a node changes hands are checked (hms.sync.orders)',
                'Key = 8-bit integer in the model (keys are only compared; 8 bits realise every order type of the <= L+3 keys involved), compare = std::less'],
   consts=[],
   sources=[
@@ -371,6 +371,7 @@ UNIT = dict(
     'hms.iter.special.memberwise': dict(deciding=True, text='copy construction / assignment give the target the source position (list, prev, cur, save) with its own protection and leave the source unchanged; move construction / assignment transfer position and protection; the old protections of an assigned-to iterator are released; self-assignment changes nothing; protection counts are exact'),
     'hms.iter.reset.releases': dict(deciding=True, text='reset() releases both guards (the iterator compares equal to end()) and touches nothing else; operator== compares the current nodes only'),
     'hms.insert.expected_protected': dict(deciding=True, text='[INT] the expected value of the linking CAS (the successor) and of every unlinking CAS (the node spliced out) is protected by a guard of this handle when the CAS is made: no ABA on a recycled address'),
+    'hms.sync.orders': dict(deciding=True, text='sync precondition [INT runs]: every guard acquisition (acquire / acquire_if_equal) uses acquire-or-stronger order, every successful link and unlink CAS is release-or-stronger, every marking CAS acquire-or-stronger - the annotations (1)-(13) of the header at the sites where a node changes hands'),
     'hms.iter.copy.independent': dict(deciding=True, text='copies / moved iterators are independently protected: advancing one leaves the other dereferenceable and well-formed'),
   },
   replays={
